@@ -879,6 +879,159 @@ fn field_name_byte(class: u8) -> u8 {
 }
 
 // ---------------------------------------------------------------------------------------------
+// C18: the spec parser as a whole (short texts)
+
+/// Python's format-spec grammar [[fill]align][sign][#][0][width][grouping][.precision][type] read off a short
+/// ASCII text by a plain scan: Ok(fill, align, sign, alternate, width, grouping, precision, type char) or Err.
+/// Numbers are read as decimal values; fields the text does not have are None.
+#[allow(clippy::type_complexity)]
+fn spec_oracle(b: &[u8]) -> Result<(Option<u8>, Option<u8>, Option<u8>, bool, Option<usize>, Option<u8>, Option<usize>, Option<u8>), ()> {
+    let n = b.len();
+    let is_align = |c: u8| c == b'<' || c == b'>' || c == b'=' || c == b'^';
+    let mut i = 0;
+    let mut fill = None;
+    let mut align = None;
+    if n >= 2 && is_align(b[1]) {
+        fill = Some(b[0]);
+        align = Some(b[1]);
+        i = 2;
+    } else if n >= 1 && is_align(b[0]) {
+        align = Some(b[0]);
+        i = 1;
+    }
+    let mut sign = None;
+    if i < n && (b[i] == b'+' || b[i] == b'-' || b[i] == b' ') {
+        sign = Some(b[i]);
+        i += 1;
+    }
+    let mut alt = false;
+    if i < n && b[i] == b'#' {
+        alt = true;
+        i += 1;
+    }
+    // the 0 flag: a '0' fill unless a fill was given; the alignment is left to the value's type
+    if i < n && b[i] == b'0' {
+        if fill.is_none() {
+            fill = Some(b'0');
+        }
+        i += 1;
+    }
+    let mut width = None;
+    while i < n && b[i].is_ascii_digit() {
+        width = Some(width.unwrap_or(0) * 10 + (b[i] - b'0') as usize);
+        i += 1;
+    }
+    let mut grouping = None;
+    if i < n && (b[i] == b',' || b[i] == b'_') {
+        grouping = Some(b[i]);
+        i += 1;
+    }
+    let mut precision = None;
+    if i < n && b[i] == b'.' {
+        i += 1;
+        if !(i < n && b[i].is_ascii_digit()) {
+            return Err(()); // "Format specifier missing precision"
+        }
+        while i < n && b[i].is_ascii_digit() {
+            precision = Some(precision.unwrap_or(0) * 10 + (b[i] - b'0') as usize);
+            i += 1;
+        }
+    }
+    let mut ty = None;
+    if i < n {
+        match b[i] {
+            b's' | b'b' | b'c' | b'd' | b'o' | b'n' | b'N' | b'x' | b'X' | b'e' | b'E' | b'f' | b'F' | b'g' | b'G' | b'%' => {
+                ty = Some(b[i]);
+                i += 1;
+            }
+            _ => return Err(()), // "Invalid format specifier" / unknown format code
+        }
+    }
+    if i < n {
+        return Err(());
+    }
+    Ok((fill, align, sign, alt, width, grouping, precision, ty))
+}
+
+macro_rules! spec_parse_family {
+    ($name:ident, $n:expr, $unwind:expr) => {
+        #[kani::proof]
+        #[kani::unwind($unwind)]
+        #[kani::stub(core::str::slice_error_fail, slice_error_fail_plain)]
+        fn $name() {
+            let buf: [u8; $n] = kani::any();
+            let mut k = 0;
+            while k < $n {
+                // '!' starts RustPython's own conversion prefix inside a spec, which Python does not have
+                kani::assume(buf[k] < 128 && buf[k] != b'!');
+                k += 1;
+            }
+            let text = unsafe { std::str::from_utf8_unchecked(&buf) };
+            let r = ManuallyDrop::new(FormatSpec::parse(text));
+            match (&*r, spec_oracle(&buf)) {
+                (Ok(s), Ok((fill, align, sign, alt, width, grouping, precision, ty))) => {
+                    assert!(s.fill == fill.map(|c| c as char));
+                    assert!(s.align == align.and_then(|c| FormatAlign::from_char(c as char)));
+                    assert!(s.align.is_some() == align.is_some());
+                    assert!(s.sign == match sign { None => None, Some(b'+') => Some(FormatSign::Plus), Some(b'-') => Some(FormatSign::Minus), _ => Some(FormatSign::MinusOrSpace) });
+                    assert!(s.alternate_form == alt);
+                    assert!(s.width == width);
+                    assert!(s.grouping_option == match grouping { None => None, Some(b',') => Some(FormatGrouping::Comma), _ => Some(FormatGrouping::Underscore) });
+                    assert!(s.precision == precision);
+                    assert!(s.format_type.as_ref().map(char::from) == ty.map(|c| c as char));
+                    assert!(s.conversion.is_none());
+                }
+                (Err(_), Err(())) => {}
+                _ => assert!(false, "FormatSpec::parse and Python's grammar disagree on whether the spec is well formed"),
+            }
+            kani::cover!(r.is_ok());
+            kani::cover!(r.is_err());
+        }
+    };
+}
+
+// @ob id=C18.k.spec_parse_1 props=C18 kind=complete tier=quick
+// @clause parsing a spec of one ASCII character yields Python's fields (all 127 texts without '!')
+// @fns FormatSpec::parse
+spec_parse_family!(c18_spec_parse_1, 1, 4);
+
+// @ob id=C18.k.spec_parse_2 props=C18 kind=bounded tier=quick
+// @bound all ASCII specs of 2 characters (without '!')
+// @clause parsing a format spec yields Python's fields: [[fill]align][sign][#][0][width][grouping][.precision][type] in this order, the 0 flag is a '0' fill unless a fill was given (whatever the alignment) and leaves the alignment to the value's type, a '.' needs digits, leftovers are rejected
+// @fns FormatSpec::parse
+spec_parse_family!(c18_spec_parse_2, 2, 5);
+
+// @ob id=C18.k.spec_parse_3 props=C18 kind=bounded tier=quick
+// @bound all ASCII specs of 3 characters (without '!')
+// @clause parsing a format spec yields Python's fields (same clause as C18.k.spec_parse_2)
+// @fns FormatSpec::parse
+spec_parse_family!(c18_spec_parse_3, 3, 6);
+
+// @ob id=C18.k.spec_parse_4 props=C18 kind=bounded tier=quick timeout=900
+// @bound all ASCII specs of 4 characters (without '!')
+// @clause parsing a format spec yields Python's fields (same clause as C18.k.spec_parse_2)
+// @fns FormatSpec::parse
+spec_parse_family!(c18_spec_parse_4, 4, 7);
+
+// @ob id=C18.k.spec_parse_5 props=C18 kind=bounded tier=quick timeout=900
+// @bound all ASCII specs of 5 characters (without '!')
+// @clause parsing a format spec yields Python's fields (same clause as C18.k.spec_parse_2)
+// @fns FormatSpec::parse
+spec_parse_family!(c18_spec_parse_5, 5, 8);
+
+// @ob id=C18.k.spec_parse_6 props=C18 kind=bounded tier=thorough timeout=1800
+// @bound all ASCII specs of 6 characters (without '!')
+// @clause parsing a format spec yields Python's fields (same clause as C18.k.spec_parse_2)
+// @fns FormatSpec::parse
+spec_parse_family!(c18_spec_parse_6, 6, 9);
+
+// @ob id=C18.k.spec_parse_7 props=C18 kind=bounded tier=thorough timeout=1800
+// @bound all ASCII specs of 7 characters (without '!')
+// @clause parsing a format spec yields Python's fields (same clause as C18.k.spec_parse_2)
+// @fns FormatSpec::parse
+spec_parse_family!(c18_spec_parse_7, 7, 10);
+
+// ---------------------------------------------------------------------------------------------
 // Decimal digits as Python reads them in format strings: Py_UNICODE_TODECIMAL, i.e. every character of
 // category Nd, not only ASCII (format(5, '\u{661}\u{660}') pads to width 10; '{\u{661}}' is positional index 1).
 
